@@ -34,6 +34,13 @@ var established atomic.Bool
 
 const fastWatch = 1500 * time.Millisecond
 
+// violated is set by the first violation of any kind in this process. Waits whose expiry is merely
+// inconclusive (sync, aid) then use fastSync: a broken tree often makes exactly those waits expire in
+// every shrink attempt, and 4 s each turns a 20 s run into minutes without changing the verdict.
+var violated atomic.Bool
+
+const fastSync = 400 * time.Millisecond
+
 func (o *outcome) incon(f string, a ...any) {
 	o.inconclusive = append(o.inconclusive, fmt.Sprintf(f, a...))
 }
@@ -65,7 +72,11 @@ func (o *outcome) expect(what string, pred func() bool) bool {
 // sync waits for an event that only keeps the schedule deterministic; expiry makes the case
 // inconclusive, never a violation.
 func (o *outcome) sync(what string, pred func() bool) bool {
-	if o.w.wait(watch, 0, pred) {
+	d := watch
+	if violated.Load() {
+		d = fastSync // expiry is inconclusive either way; after a violation nobody waits 4 s for that
+	}
+	if o.w.wait(d, 0, pred) {
 		return true
 	}
 	o.incon("%s", what)
@@ -75,6 +86,14 @@ func (o *outcome) sync(what string, pred func() bool) bool {
 // aid waits for an event that merely keeps later steps from racing with the tail of this one. Expiry
 // is counted (label aid-expired:*) so that a systematic miss shows up in the evidence, nothing more.
 func (o *outcome) aid(what string, pred func() bool) {
+	if violated.Load() {
+		// after a violation (shrinking, remaining cases): short wait, and an expiry ends the execution as
+		// inconclusive rather than letting later steps run on an unsettled state
+		if !o.w.wait(fastSync, 0, pred) {
+			o.incon("after-violation: aid %s", what)
+		}
+		return
+	}
 	if !o.w.wait(watch, 0, pred) {
 		o.aidExpired = append(o.aidExpired, what)
 	}
